@@ -12,7 +12,8 @@ Definition z_s_eqb := @s_eqb Z Z.eqb.
 Definition z_s_fill := @s_fill Z.
 Definition z_s_set := @s_set Z.
 Definition z_s_clone := @s_clone Z.
+Definition z_take_mixed := @take_mixed Z.
 
 Extraction Language OCaml.
-Extraction "dense_model.ml" z_t_run z_s_run z_abs z_ravel z_s_eqb z_s_fill z_s_set z_s_clone
+Extraction "dense_model.ml" z_t_run z_s_run z_abs z_ravel z_s_eqb z_s_fill z_s_set z_s_clone z_take_mixed
   stride row_bytes row_addr.
